@@ -188,6 +188,41 @@ func checkC10(c *Ctx) {
 				return ok && (calleeName(cl) == "(*os.File).ReadAt" || calleeName(cl) == "(*os.File).Read")
 			}) || valueDependsOnLocalFilledBy(theWrite.Call.Args[1], "(*os.File).ReadAt", "(*os.File).Read")
 		}
+		// the inspection covers every non-empty file: ReadAt(…, Size()-1) under Size() > 0 (not a larger bound)
+		if inspects {
+			bfW := blockFacts(W)
+			eachInstr(W, func(in ssa.Instruction) {
+				cl, ok := in.(*ssa.Call)
+				if !ok || calleeName(cl) != "(*os.File).ReadAt" || cl.Call.Args[0] != fileV {
+					return
+				}
+				isSize := func(v ssa.Value) bool {
+					c2, ok := v.(*ssa.Call)
+					return ok && c2.Call.IsInvoke() && c2.Call.Method.Name() == "Size"
+				}
+				okOff := false
+				if bo, ok := cl.Call.Args[2].(*ssa.BinOp); ok && bo.Op == token.SUB && isSize(bo.X) {
+					if k, ok := constInt(bo.Y); ok && k == 1 {
+						okOff = true
+					}
+				}
+				okGuard, anyGuard := false, false
+				for fc := range factsAt(bfW, in) {
+					rel, ok := relOf(fc.Cond, fc.Val)
+					if !ok || !isSize(rel.X) {
+						continue
+					}
+					if k, ok := constInt(rel.Y); ok {
+						anyGuard = true
+						if (rel.Op == token.GTR && k == 0) || (rel.Op == token.GEQ && k == 1) || (rel.Op == token.NEQ && k == 0) {
+							okGuard = true
+						}
+					}
+				}
+				r.Check(okOff && (okGuard || !anyGuard), "C10.fresh-line", fnFileWrite+":tail-read-exact", p.IPos(in), "reads the last byte of every non-empty file",
+					fmt.Sprintf("the tail inspection does not read byte Size()-1 of every non-empty file (offset Size()-1: %v, guard is Size() > 0: %v): a torn tail of some length is not detected", okOff, okGuard))
+			})
+		}
 		startsSep := firstByteIsNewline(p, theWrite.Call.Args[1])
 		r.Check((inspects && sepDep) || startsSep, "C10.fresh-line", fnFileWrite+":fresh-line", p.IPos(theWrite),
 			fmt.Sprintf("tail inspected=%v (bytes depend on it=%v) / leading separator=%v", inspects, sepDep, startsSep),
